@@ -147,6 +147,8 @@ type StepInfo struct {
 
 // Sim is one controller process plus its HAProxy.
 type Sim struct {
+	svc      *services.Services
+	ctx      context.Context
 	P        Params
 	Dir      string
 	Cfg      *config.Config
@@ -299,10 +301,22 @@ func New(p Params) (*Sim, error) {
 		s.Watchers = reconciler.VerifNewWatchers(ctx, cfg, cache)
 	} else {
 		svc := services.VerifNewServices(ctx, s.Client, cfg, cache, s.ConvOpt, s.Instance)
+		s.svc, s.ctx = svc, ctx
 		s.Rec = reconciler.VerifNewReconciler(ctx, cfg, svc)
 		s.Watchers = s.Rec.VerifWatchers
 	}
 	return s, nil
+}
+
+// QueueReconciler returns the reconciler of this controller wired to the work queue and the rate limiter that
+// SetupWithManager configures for the given --rate-limit-update and --wait-before-update. Events dispatched
+// through its Dispatch and its LeaderChanged go through the controller's own enqueue sites.
+func (s *Sim) QueueReconciler(rateLimitUpdate float64, waitBeforeUpdate time.Duration,
+	observe func(fullsync bool, before, after time.Time, delay time.Duration)) *reconciler.VerifQueueReconciler {
+	cfg := *s.Cfg
+	cfg.RateLimitUpdate = rateLimitUpdate
+	cfg.WaitBeforeUpdate = waitBeforeUpdate
+	return reconciler.VerifNewQueueReconciler(s.ctx, &cfg, s.svc, observe)
 }
 
 // Close releases sockets and removes the directory.
